@@ -209,6 +209,8 @@ def r_symbols(ctx):
 
 
 def check(ctx):
+    from . import c04
+    c04.group_rule(ctx, 'R14.8', r'^debug::', 'debug-symbol plumbing (tracking, marker ids, text extraction, value mapping): full call traces', 10)
     r_symbols(ctx)
     r_neutral(ctx)
     r_same_key(ctx)
